@@ -284,6 +284,9 @@ def monitor_c06(sc, obs):
                 if (d, r[4]) in finished:
                     _bad(v, 'C06/finished-twice', 'op %d: device %d finished part %d twice' % (i, d, r[4]))
                 finished.add((d, r[4]))
+                for c in ents[d].get('on_finish', []):
+                    if c[0] == 'offset_next':       # a one-shot offset requested by a finish callback: for the next part
+                        off[d] += c[1]
             if lab == 6:
                 finished.discard((d, r[4]))      # a new acceptance (re-entrant routes bring a part to the same device again)
                 for c in cbs_of[d]:
